@@ -226,14 +226,16 @@ where
             );
         }
 
-        // spawn a thread to forward the fingerprints to check
-        handles.push(std::thread::spawn(move || {
+        // spawn a thread to forward the fingerprints to check. It is deliberately not among the
+        // handles that `join` waits for: it runs until the checker (which owns the sending half of
+        // its channel) is dropped, so joining it from `join(self)` could never return.
+        std::thread::spawn(move || {
             for fingerprint in controlflow_to_check_receiver {
                 for sender in &controlflow_channels {
                     let _ = sender.send(fingerprint);
                 }
             }
-        }));
+        });
 
         OnDemandChecker {
             model,
